@@ -367,8 +367,68 @@ func ruleC11R4(w *World, r *Report) {
 	}
 	sort.Slice(keys, func(i, j int) bool { return keys[i].owner+keys[i].field < keys[j].owner+keys[j].field })
 	w.NoReturn()
+	// a field of the lexer that only carries something about the previous token over to the next call of nextToken (the
+	// role of lastTokenKind, under any name and in any form — the kind itself, or what a pure predicate says about it): every
+	// store is in the entry block of nextToken, before the token is reset, of a value computed from Token.Kind alone
+	nt := w.fn(w.Mem, "(*Lexer).nextToken")
+	carriesPrevToken := func(sts []*ssa.Store) bool {
+		if nt == nil || len(nt.Blocks) == 0 || len(sts) == 0 {
+			return false
+		}
+		resetIdx := -1
+		for i, in := range nt.Blocks[0].Instrs {
+			if st, ok := in.(*ssa.Store); ok {
+				if fa, ok := st.Addr.(*ssa.FieldAddr); ok && w.isLexerPtr(fa.X.Type()) && fieldAddrName(fa) == "Token" {
+					resetIdx = i
+					break
+				}
+			}
+		}
+		var fromKind func(v ssa.Value, depth int) bool
+		fromKind = func(v ssa.Value, depth int) bool {
+			if depth > 3 {
+				return false
+			}
+			if c, ok := v.(*ssa.Call); ok {
+				callee := c.Call.StaticCallee()
+				if callee == nil || fnPkgPath(callee) != modRoot || len(c.Call.Args) != 1 || callee.Signature.Recv() != nil || !isNamed(callee.Params[0].Type(), modRoot+"/token", "TokenKind") {
+					return false
+				}
+				return fromKind(c.Call.Args[0], depth+1)
+			}
+			ld, ok := isLoad(v)
+			if !ok {
+				return false
+			}
+			fa, ok := ld.(*ssa.FieldAddr)
+			if !ok || fieldAddrName(fa) != "Kind" {
+				return false
+			}
+			tfa, ok := fa.X.(*ssa.FieldAddr)
+			return ok && fieldAddrName(tfa) == "Token" && w.isLexerPtr(tfa.X.Type())
+		}
+		for _, st := range sts {
+			if st.Parent() != nt || st.Block() != nt.Blocks[0] || resetIdx < 0 {
+				return false
+			}
+			before := false
+			for i, in := range nt.Blocks[0].Instrs {
+				if in == ssa.Instruction(st) {
+					before = i < resetIdx
+				}
+			}
+			if !before || !fromKind(st.Val, 0) {
+				return false
+			}
+		}
+		return true
+	}
 	for _, k := range keys {
 		construct := fmt.Sprintf("extra state field %s.%s", k.owner, k.field)
+		if k.owner == "Lexer" && carriesPrevToken(stores[k]) {
+			r.ok(rule, construct, w.pos(stores[k][0].Pos()), "written only at the entry of nextToken from the kind of the token that is being replaced: it says something about the previous token and nothing else")
+			continue
+		}
 		var problems []string
 		byFn := map[*ssa.Function][]*ssa.Store{}
 		for _, st := range stores[k] {
